@@ -1230,6 +1230,8 @@ LAYOUTS = {
     'cap': 'cap',                                      # one line, every keyword Capitalised
     'mixed': 'mixed',                                  # one line, every keyword in aLtErNaTiNg case
     'remarks': 'remarks',                              # several lines, comments holding every character of ODD_CHARACTERS
+    'stairs': 'stairs',                                # a line per statement / elif / else, every line one column further left
+    'climb': 'climb',                                  # ... one column further right
 }
 # Characters str.splitlines() (and \s, and some editors) take as line boundaries although they are none in OAL, where a
 # line ends in "\n" only: form feed, vertical tab, FS, GS, RS, NEL, LINE and PARAGRAPH SEPARATOR -- and a lone carriage
@@ -1273,6 +1275,18 @@ def layout_of(printed, name):
         return oalast.Layout(gaps=gaps, lead='/*\x85\x0c*/ /* \x0b */\n', trail=' /*\x0c*/')
     if name == 'joined':
         return joined_layout(printed)
+    if name in ('stairs', 'climb'):
+        # every statement and every elif / else clause on a line of its own, each line indented one column less (stairs)
+        # or one column more (climb) than the line before: a later clause starts in a smaller (larger) column
+        gaps = {}
+        k = 0
+        for i, t in enumerate(printed.toks):
+            if not i or printed.toks[i - 1].glue:
+                continue
+            if printed.toks[i - 1].text == ';' or t.text.lower() in ('elif', 'else'):
+                k += 1
+                gaps[i] = '\n' + ' ' * ((14 - k) % 15 if name == 'stairs' else k % 15)
+        return oalast.Layout(gaps=gaps, lead=' ' * (14 if name == 'stairs' else 0))
     raise ValueError(name)
 
 
@@ -1462,6 +1476,8 @@ def record_coverage(ctx, task, an, ok):
         key += (repr(task['history']),)
     if task.get('host'):
         key += (task['host'],)
+    if task.get('layout') not in (None, 'default', '-'):
+        key += ('layout:' + task['layout'],)
     ctx.distinct('states', key)
     ctx.distinct('programs', repr(task['stmts']))
     ctx.distinct('home:' + task['home'], repr(task['stmts']))
